@@ -62,6 +62,17 @@ def run(ctx):
         ctx.item("C07/E1/shared-default:Typemap.%s" % f_, not sites,
                  "; ".join("%s:%d %s" % (b["file"], b["line"], b["what"]) for b in sites[:3]),
                  sample={"field": f_, "rule": "re-bound, never mutated in place"})
+    from effects.roots import escaping_default_mutations
+    dsites, dbad = escaping_default_mutations(REPO)
+    for st in dsites:
+        hits = [b for b in dbad if (".%s," % st["attr"]) in b["what"] or ("as .%s," % st["attr"]) in b["what"]]
+        ctx.item("C07/E1/mutable-default:%s:%s(%s)->.%s" % (st["file"], st["function"], st["param"], st["attr"]), not hits,
+                 "; ".join("%s:%d %s" % (b["file"], b["line"], b["what"]) for b in hits[:2]),
+                 sample={"default_parameter": st["param"], "kept_as": st["attr"], "rule": "never mutated in place"},
+                 confirm=lambda: ctx.monitor("m_purity", "search", 90, ctx.seed))
+    for b in [b for b in dbad if "is mutated in place:" in b["what"] or "is written:" in b["what"]]:
+        ctx.item("C07/E1/mutable-default:%s:%d" % (b["file"], b["line"]), False, b["what"],
+                 confirm=lambda: ctx.monitor("m_purity", "search", 90, ctx.seed))
     reads = output_dir_reads(REPO)
     ctx.item("C07/E3/emitters-never-read-the-output-directories", not reads,
              "; ".join("%s:%d %s" % (b["file"], b["line"], b["what"]) for b in reads[:4]),
